@@ -17,9 +17,6 @@ open PyEcc PyEcc.Fqp PyEcc.FqpSem
 
 variable {v : Variant} {p : ℕ} {mc : List Int}
 
-instance (p d : ℕ) (l : List Int) : Decidable (CanonL p d l) := by unfold CanonL; infer_instance
-instance (x : Fqp v p mc) : Decidable (WF x) := by unfold WF; infer_instance
-instance (x : Fqp v p mc) : Decidable (Canon x) := by unfold Canon; infer_instance
 
 /-! ### Refinement: every operation is the quotient-ring operation -/
 
